@@ -29,6 +29,10 @@ SEEDS = [
     "start: p ';' q NEWLINE\np: '<' (a=NAME ',' b=NAME { foo(a) }) '>'\nq: '<' (a=NAME ',' b=NAME { foo(b) }) '>'\n",
     "start: (NUMBER) (n=NUMBER { foo(n) }) NEWLINE\n",
     "start: (NAME | NUMBER) (x=NAME { foo(x) } | y=NUMBER { foo(y, y) }) NEWLINE\n",
+    # a forced item over a group that can match nothing (the inner call carries a trailing comma)
+    "start: NAME &&(NUMBER*) NEWLINE\n",
+    "start: &&(NAME?) NUMBER NEWLINE\n",
+    "start: &&([NAME]) NEWLINE\n",
 ]
 EXTRA_INPUTS = ["a c\n", "a b\n", "a\n", "< p , q > ; < r , s >\n", "1 2\n", "x 1\n", "x y\n", "1 x\n"]
 KF_LOOKAHEAD_FORCED = {"grammar": "start: &(&&'a') 'a' 'b'\n", "input": "a b\n"}
